@@ -104,6 +104,7 @@ func main() {
 // expectedSilent: seeded changes that are documented as outside the claimed clauses (DESIGN.md §9).
 var expectedSilent = map[string]int{
 	"C08": 1, // C08-m10: word-at-a-time scan in util.Bitmask.HasBitsIn drops the last 8 middle bytes — bitmask arithmetic, not decided (DESIGN.md §5, §9)
+	"C12": 1, // C12-m15: balanced OR tree for long in(...) lists drops the odd leftover of a level — index arithmetic on slice halves, not decided (DESIGN.md §9)
 }
 
 // controlPar: control child processes run at a time (each ≈ 1 GB).
